@@ -182,19 +182,21 @@ func open(st *recState, flags ...string) (*gorm.DB, *recdrv.Recorder) {
 // ---- decide cases ----
 
 type FieldIn struct {
-	Ignore    bool   `json:"ignore"`
-	PK        bool   `json:"pk"`
-	DType     string `json:"dtype"`
-	Size      int    `json:"size"`
-	Precision int    `json:"precision"`
-	NotNull   bool   `json:"notnull"`
-	HasDef    bool   `json:"hasdef"`
-	DefI      string `json:"defi"` // "" none | "int" | "str" | "bool": DefaultValueInterface built from Default
-	Default   string `json:"default"`
-	GType     string `json:"gtype"`            // time | bool | num (Int/Uint/Float) | other
-	Parsed    string `json:"parsed,omitempty"` // fmt.Sprint(DefaultValueInterface) of a num field (round cases)
-	Comment   string `json:"comment"`
-	Unique    bool   `json:"unique"`
+	Ignore    bool    `json:"ignore"`
+	PK        bool    `json:"pk"`
+	DType     string  `json:"dtype"`
+	Size      int     `json:"size"`
+	Precision int     `json:"precision"`
+	NotNull   bool    `json:"notnull"`
+	HasDef    bool    `json:"hasdef"`
+	DefI      string  `json:"defi"` // "" none | "int" | "str" | "bool": DefaultValueInterface built from Default
+	Default   string  `json:"default"`
+	GType     string  `json:"gtype"`               // time | bool | num (Int/Uint/Float) | other
+	Parsed    string  `json:"parsed,omitempty"`    // fmt.Sprint(DefaultValueInterface) of a num field (round cases)
+	IsFloat   bool    `json:"is_float,omitempty"`  // DefaultValueInterface is a float64 ...
+	FloatVal  float64 `json:"float_val,omitempty"` // ... with this value
+	Comment   string  `json:"comment"`
+	Unique    bool    `json:"unique"`
 }
 type RepIn struct {
 	Type       string   `json:"type"`
@@ -305,7 +307,7 @@ var dtypes = []string{"varchar(100)", "VARCHAR(64)", "varchar", "bigint", "integ
 	"bigint unsigned", "  text  ", "enum('a','b')", "bit(1)", "varchar(255)", "int(11)", "smallint"}
 var rtypes = []string{"varchar", "VARCHAR", "bigint", "integer", "int", "INT", "decimal", "numeric", "text", "TEXT", "datetime",
 	"boolean", "bool", "char", "float", "double", "blob", "varchar(100)", "bit", "smallint", "enum", "character varying", "int4", ""}
-var defaults = []string{"+5", "5", "0x10", "16", "1.50", "1.5", "-7", "007", "", "0", "1", "18", "true", "false", "TRUE", "t", "NULL", "null", "n/a", "'x'", "now()", "NOW", "current_timestamp()",
+var defaults = []string{"2.5e-07", "0.00000025", "1e21", "1000000000000000000000", "5e0", "+5", "5", "0x10", "16", "1.50", "1.5", "-7", "007", "", "0", "1", "18", "true", "false", "TRUE", "t", "NULL", "null", "n/a", "'x'", "now()", "NOW", "current_timestamp()",
 	"CURRENT_TIMESTAMP", "(-)", "abc", "0.5"}
 
 func genDecide(r *lib.Rng, edge bool) (FieldIn, RepIn) {
@@ -389,21 +391,85 @@ func genDecide(r *lib.Rng, edge bool) (FieldIn, RepIn) {
 	return fi, ri
 }
 
+// genMatching: a reported column derived from the field so that it MATCHES it by construction (same
+// type name with the declared size / precision, agreeing nullability, comment, uniqueness, and a
+// default reported in one of the spellings a dialect may use: the tag text, the parsed value as gorm
+// prints it, or - for floats - the same number in another notation).  The property then demands that
+// MigrateColumn leaves the column alone.
+func genMatching(r *lib.Rng) (FieldIn, RepIn) {
+	fi, _ := genDecide(r, false)
+	fi.Ignore = false
+	base := strings.ToLower(strings.TrimSpace(fi.DType))
+	if i := strings.IndexAny(base, "( "); i > 0 {
+		base = base[:i]
+	}
+	ri := RepIn{Type: base, Len: int64(fi.Size), LenOK: r.Bool(), NullableOK: r.Bool(), Nullable: !fi.NotNull,
+		CommentOK: r.Bool(), Comment: fi.Comment, UniqueOK: r.Bool(), Unique: fi.Unique}
+	if r.Bool() {
+		ri.Type = strings.ToUpper(base)
+	}
+	if r.Bool() {
+		ri.PrecOK, ri.Prec = true, int64(fi.Precision)
+	}
+	if fi.GType == "num" {
+		fi.HasDef = true
+		fi.DefI = lib.Pick(r, []string{"int", "float"})
+		if fi.DefI == "int" {
+			fi.Default = lib.Pick(r, []string{"5", "+5", "0x10", "007", "-7", "0", "16"})
+		} else {
+			fi.Default = lib.Pick(r, []string{"1.5", "1.50", "2.5e-07", "0.00000025", "1e21", "5e0", "0.00005", "2"})
+		}
+	}
+	cur := fi.HasDef && (fi.DefI != "" || !strings.EqualFold(fi.Default, "NULL"))
+	ri.DefaultOK = cur
+	if cur {
+		ri.Default = fi.Default // the tag text
+		if fi.GType == "num" {
+			switch r.Intn(3) {
+			case 1: // the parsed value as gorm prints it
+				if fi.DefI == "int" {
+					n, _ := strconv.ParseInt(fi.Default, 0, 64)
+					ri.Default = fmt.Sprint(n)
+				} else {
+					x, _ := strconv.ParseFloat(fi.Default, 64)
+					ri.Default = fmt.Sprint(x)
+				}
+			case 2: // the same number in plain decimal / exponent notation
+				if fi.DefI == "float" {
+					x, _ := strconv.ParseFloat(fi.Default, 64)
+					ri.Default = strconv.FormatFloat(x, lib.Pick(r, []byte{'f', 'e'}), -1, 64)
+				}
+			}
+		}
+	}
+	return fi, ri
+}
+
 // ---- Gallina ----
-func gField(name string, fi FieldIn, full, dtype string) string {
+func gField(name string, fi FieldIn, full, dtype, reportedDefault string) string {
 	g := map[string]string{"time": "GTime", "bool": "GBool"}[fi.GType]
 	if fi.GType == "num" {
-		g = "(GNum None)"
+		parsed := "None"
+		isFloat, fv := fi.IsFloat, fi.FloatVal
 		switch {
 		case fi.Parsed != "":
-			g = "(GNum (Some " + lib.Str(fi.Parsed) + "))"
+			parsed = "(Some " + lib.Str(fi.Parsed) + ")"
 		case fi.DefI == "int":
 			n, _ := strconv.ParseInt(fi.Default, 0, 64)
-			g = "(GNum (Some " + lib.Str(fmt.Sprint(n)) + "))"
+			parsed = "(Some " + lib.Str(fmt.Sprint(n)) + ")"
 		case fi.DefI == "float":
 			x, _ := strconv.ParseFloat(fi.Default, 64)
-			g = "(GNum (Some " + lib.Str(fmt.Sprint(x)) + "))"
+			parsed = "(Some " + lib.Str(fmt.Sprint(x)) + ")"
+			isFloat, fv = true, x
 		}
+		// does the REPORTED default parse (strconv.ParseFloat, Go runtime) to the parsed float default?
+		same := false
+		if isFloat {
+			if got, err := strconv.ParseFloat(reportedDefault, 64); err == nil && got == fv {
+				same = true
+			}
+		}
+		g = "(GNum " + parsed + " " + lib.Bool(same) + ")"
 	}
 	if g == "" {
 		g = "GOther"
@@ -506,6 +572,9 @@ func fieldIn(f *schema.Field) FieldIn {
 		fi.GType = "num"
 		if f.DefaultValueInterface != nil {
 			fi.Parsed = fmt.Sprint(f.DefaultValueInterface)
+			if x, ok := f.DefaultValueInterface.(float64); ok {
+				fi.IsFloat, fi.FloatVal = true, x
+			}
 		}
 	}
 	return fi
@@ -977,10 +1046,7 @@ func missingUniques(db *gorm.DB, model interface{}, table, which string, errs *[
 
 // roundSig: known-finding signature of a round input.
 func roundSig(in RoundIn) string {
-	if in.Pair == "P16" {
-		return "float-default-in-exponent-notation-realtered"
-	}
-	return "" // (the P14 finding is fixed in /repo: fa267c0)
+	return "" // (the P14 / P16 findings are fixed in /repo: fa267c0, 652c1bd)
 }
 
 // notMigrated: names of the fields excluded from migration (their columns need not exist)
@@ -1093,7 +1159,7 @@ func tableOf(name string) string {
 }
 
 // ---- terms ----
-func gCol(c ColObs) string { return gField(c.Name, c.Field, c.Full, c.DType) }
+func gCol(c ColObs) string { return gField(c.Name, c.Field, c.Full, c.DType, c.Rep.Default) }
 
 func gModelObs(m ModelObs) string {
 	exists := "None"
@@ -1129,7 +1195,7 @@ func main() {
 
 	addDecide := func(kind string, fi FieldIn, ri RepIn) {
 		o := runDecide(fi, ri)
-		term := lib.App("CDecide", gField("col", fi, o.Full, o.DType), gRep(ri), lib.Bool(o.Alter), gUnique(o.Unique), lib.Bool(o.Err != ""))
+		term := lib.App("CDecide", gField("col", fi, o.Full, o.DType, ri.Default), gRep(ri), lib.Bool(o.Alter), gUnique(o.Unique), lib.Bool(o.Err != ""))
 		sh := fmt.Sprintf("decide|%s|%s|pk%v|sz%d/%d%v|p%d/%d%v|nn%v/%v%v|d%v%s%q/%q%v|c%v|u%v/%v%v|%s|al%d", strings.TrimSpace(fi.DType), ri.Type, fi.PK,
 			fi.Size, ri.Len, ri.LenOK, fi.Precision, ri.Prec, ri.PrecOK, fi.NotNull, ri.Nullable, ri.NullableOK, fi.HasDef, fi.DefI, fi.Default, ri.Default, ri.DefaultOK,
 			fi.Comment == ri.Comment && ri.CommentOK, fi.Unique, ri.Unique, ri.UniqueOK, fi.GType, len(ri.Aliases))
@@ -1210,9 +1276,6 @@ func main() {
 	r := lib.NewRng(a.Seed)
 	// round cases: every pair, with and without rows
 	for _, p := range pairs {
-		if p.Name == "P16" {
-			continue // known finding: replayed from the corpus only
-		}
 		for _, n := range []int{0, 3} {
 			addRound("main", RoundIn{Pair: p.Name, Rows: n, Seed: r.U64()})
 		}
@@ -1261,6 +1324,14 @@ func main() {
 			kind = "edge"
 		}
 		addDecide(kind, fi, ri)
+	}
+	nm := 300
+	if a.Tier == "thorough" {
+		nm = 5000
+	}
+	for i := 0; i < nm; i++ {
+		fi, ri := genMatching(r)
+		addDecide("matching", fi, ri)
 	}
 	out.Extra["rule"] = "cases = (a) decide: generated schema.Field (data type from a 24-word vocabulary with sizes/precisions/case/space variants, primary key, size, precision, not null, default value and DefaultValueInterface, time/bool/other, comment, unique, IgnoreMigration) x generated reported column type (type name related or unrelated, aliases, length/precision/nullable/default/comment/unique each with an ok flag) fed to the real Migrator.MigrateColumn with a recording migrator; (b) round: 16 hand-written model pairs (incl. composite / partial / unique / sorted index options placed on any member field, type: tags carrying their length, fields excluded from migration whose column does not exist, mixed-case column: tags and many2many over unique non-primary references with a link test), the relation pairs also under DisableForeignKeyConstraintWhenMigrating / IgnoreRelationshipsWhenMigrating / both (v1, v2 = v1 + fields/indexes/unique index/check constraints; sizes, not null, literal/bool/null defaults, times, bytes, embedded prefix, renamed column, json serializer, unique, check, composite key and index, foreign key) on real SQLite through the recording driver, with 0 and 3 rows; (c) reorder: ReorderModels on random subsets of 7 models with chain/diamond foreign keys. distinct = distinct input shapes; non-trivial = decision is alter or a unique change / rows present / more than one model"
 	lib.Must(out.Flush())
